@@ -42,6 +42,11 @@ def corpus():
         F4_WITNESS,
         F4B_WITNESS,
         F4C_WITNESS,
+        # two distinct owners that compare == share a child and register the same handler: one
+        # notifier per owner (targets are compared with `is`), one call per registration
+        "obs|3|N~0,N~2,N~2|set 2 child 0;set 1 child 0;obs 0 2 t.child.1.0 t.value.1.0 then;"
+        "obs 0 1 t.child.1.0 t.value.1.0 then;unobs 0 2 t.child.1.0 t.value.1.0 then;"
+        "unobs 0 1 t.child.1.0 t.value.1.0 then;unobs 0 1 t.child.1.0 t.value.1.0 then",
         "obs|3|N,N,N|set 0 child 1;obs 0 0 t.child.1.0 t.value.1.0 then;obs 0 0 t.child.1.0 t.value.1.0 then;"
         "unobs 0 0 t.child.1.0 t.value.1.0 then;unobs 0 0 t.child.1.0 t.value.1.0 then;unobs 0 0 t.child.1.0 t.value.1.0 then",
         "obs|3|N,N,N|set 0 child 1;obs 0 0 t.child.1.0 t.value.1.0 then;kill 0;set 0 child 2",
@@ -57,6 +62,8 @@ def generate(rng, tier):
         yield from O.failure_positions(5)
     for _ in range(nh):
         yield O.history_c09(rng)
+    for _ in range(nh // 6):
+        yield O.history_eq(rng, c09=True)
     for _ in range(ngc):
         yield "#gc" + O.history_c09(rng, maxops=8, gc_case=True)
 
